@@ -2482,7 +2482,22 @@ func (ts *TokenStore) handleTidy(ctx context.Context, req *logical.Request, data
 					// found, it doesn't exist. Doing the following without locking
 					// since appropriate locks cannot be held with salted token IDs.
 					// Also perform deletion if the parent doesn't exist any more.
-					te, err := ts.lookupInternal(quitCtx, child, true, true)
+					// The index names a child outside the root namespace as
+					// <salted id>.<namespace id>; the token itself is stored
+					// under its salted id in that namespace.
+					childCtx := quitCtx
+					childID, childNSID := namespace.SplitIDFromString(child)
+					if childNSID != "" {
+						childNS, err := ts.core.NamespaceByID(quitCtx, childNSID)
+						if err != nil {
+							tidyErrors = multierror.Append(tidyErrors, fmt.Errorf("failed to look up namespace of child token of secondary index: %w", err))
+							continue
+						}
+						if childNS != nil {
+							childCtx = namespace.ContextWithNamespace(quitCtx, childNS)
+						}
+					}
+					te, err := ts.lookupInternal(childCtx, childID, true, true)
 					if err != nil {
 						tidyErrors = multierror.Append(tidyErrors, fmt.Errorf("failed to look up child token of secondary index: %w", err))
 						continue
@@ -2494,7 +2509,7 @@ func (ts *TokenStore) handleTidy(ctx context.Context, req *logical.Request, data
 						lock.Lock()
 
 						te.Parent = ""
-						err = ts.store(quitCtx, te)
+						err = ts.store(childCtx, te)
 						if err != nil {
 							tidyErrors = multierror.Append(tidyErrors, fmt.Errorf("failed to convert child token into an orphan token: %w", err))
 						}
